@@ -59,6 +59,27 @@ pub fn run(tier: Tier) -> i32 {
             for nlit in [5000u32, 9000, 20000] {
                 edge.push((0..nlit).map(|i| Sym::L((i.wrapping_mul(2654435761) >> 13) as u8)).collect());
             }
+            // payloads whose LAST symbol is a match at every distance-slot boundary up to 4096 (distances from 5 on are coded with
+            // reverse bit trees, from 128 on with direct and alignment bits) x six length classes x three salts: the last bit of
+            // the last symbol decides whether one more byte belongs to the payload
+            for d in [5u32, 6, 7, 8, 9, 12, 13, 16, 17, 24, 25, 32, 33, 48, 49, 64, 65, 96, 97, 127, 128, 129, 192, 193, 256, 257, 384, 385, 512, 513, 768, 1024, 1025, 1536, 2048, 2049, 3072, 4000, 4096] {
+                for l in [2u32, 3, 9, 10, 18, 273] {
+                    for salt in 0..tier.pick(2u32, 6u32) {
+                        let mut p: Vec<Sym> = (0..8u32).map(|k| Sym::L((k * 29 + salt * 53 + 1) as u8)).collect();
+                        let mut produced = 8u32;
+                        while produced < d {
+                            let len = (d - produced).clamp(2, 273);
+                            p.push(Sym::M(1 + (produced + salt) % 8, len));
+                            produced += len;
+                        }
+                        if salt % 2 == 1 {
+                            p.push(Sym::L(0x5A));
+                        }
+                        p.push(Sym::M(d, l));
+                        edge.push(p);
+                    }
+                }
+            }
             let nedge = edge.len() as u64;
             par_for((total + nedge) * 2, |i| {
                 let (lc, lp, pb) = [(3u32, 0u32, 2u32), (0, 2, 0)][(i % 2) as usize];
